@@ -95,3 +95,78 @@ func (w *Window) Describe(addr uintptr) string {
 
 // Free unmaps the window.
 func (w *Window) Free() { syscall.Munmap(w.all) }
+
+// Multi is a sequence of n one-page cells, each flanked by inaccessible pages: [guard][cell 0][guard][cell 1][guard]…
+// All cells are laid out once and then made read-only together, so that many haystacks can be searched without
+// further mprotect calls.
+type Multi struct {
+	all []byte
+	n   int
+	ro  bool
+}
+
+// NewMulti maps n guarded cells.
+func NewMulti(n int) *Multi {
+	all, err := syscall.Mmap(-1, 0, (2*n+1)*Page, syscall.PROT_READ|syscall.PROT_WRITE, syscall.MAP_ANON|syscall.MAP_PRIVATE)
+	if err != nil {
+		panic("guardmem: mmap: " + err.Error())
+	}
+	for i := 0; i <= n; i++ {
+		if err := syscall.Mprotect(all[2*i*Page:(2*i+1)*Page], syscall.PROT_NONE); err != nil {
+			panic(err)
+		}
+	}
+	return &Multi{all: all, n: n}
+}
+
+func (m *Multi) cell(i int) []byte { return m.all[(2*i+1)*Page : (2*i+2)*Page : (2*i+2)*Page] }
+
+// Place copies b into cell i, flush against the upper (hi) or lower guard, and returns the placed slice
+// (capacity exactly len(b)). len(b) must not exceed one page.
+func (m *Multi) Place(i int, b []byte, hi bool) []byte {
+	if m.ro {
+		panic("guardmem: Place on a read-only Multi")
+	}
+	c := m.cell(i)
+	if len(b) > len(c) {
+		panic("guardmem: haystack larger than a cell")
+	}
+	var s []byte
+	if hi {
+		s = c[len(c)-len(b) : len(c) : len(c)]
+	} else {
+		s = c[0:len(b):len(b)]
+	}
+	copy(s, b)
+	return s
+}
+
+// Protect switches all cells between read-only and read-write.
+func (m *Multi) Protect(readOnly bool) {
+	prot := syscall.PROT_READ | syscall.PROT_WRITE
+	if readOnly {
+		prot = syscall.PROT_READ
+	}
+	for i := 0; i < m.n; i++ {
+		if err := syscall.Mprotect(m.cell(i), prot); err != nil {
+			panic(err)
+		}
+	}
+	m.ro = readOnly
+}
+
+// Cells returns the number of cells.
+func (m *Multi) Cells() int { return m.n }
+
+// DescribeAddr classifies a fault address.
+func (m *Multi) DescribeAddr(addr uintptr) string {
+	base := uintptr(unsafe.Pointer(&m.all[0]))
+	if addr < base || addr >= base+uintptr(len(m.all)) {
+		return "outside the mapping"
+	}
+	pg := int(addr-base) / Page
+	if pg%2 == 0 {
+		return fmt.Sprintf("guard page %d (%d bytes into it)", pg/2, int(addr-base)%Page)
+	}
+	return fmt.Sprintf("cell %d (write to a read-only page)", pg/2)
+}
